@@ -719,12 +719,13 @@ class SNAXGEMMXAccelerator(
             new_inputs.append(op.inputs[-1])
 
             # make last spatial stride patterns 2d
-            # the spatial strides do not matter here (i think)
-            snax_stride_patterns[-2] = snax_stream.StridePattern(
-                upper_bounds=snax_stride_patterns[-2].upper_bounds,
-                temporal_strides=snax_stride_patterns[-2].temporal_strides,
-                spatial_strides=[8, 64],
-            )
+            # (the C pattern keeps its own spatial strides if it already has two: they depend on the streamer geometry)
+            if len(snax_stride_patterns[-2].spatial_strides) != 2:
+                snax_stride_patterns[-2] = snax_stream.StridePattern(
+                    upper_bounds=snax_stride_patterns[-2].upper_bounds,
+                    temporal_strides=snax_stride_patterns[-2].temporal_strides,
+                    spatial_strides=[8, 64],
+                )
             snax_stride_patterns[-1] = snax_stream.StridePattern(
                 upper_bounds=snax_stride_patterns[-1].upper_bounds,
                 temporal_strides=snax_stride_patterns[-1].temporal_strides,
